@@ -503,6 +503,13 @@ def write_replay(prop, obj):
 
 
 def write_evidence(prop, tier, seed, coverage, assumptions, wall, violations):
+    if REPO != "/repo":
+        # a mutation experiment on a scratch worktree: never overwrite the committed evidence
+        d = os.path.join(BUILD, "evidence_alt")
+        os.makedirs(d, exist_ok=True)
+        ev = dict(property_id=prop, tier=tier, seed=seed, level="proof", coverage=coverage, assumptions=assumptions, wall_s=round(wall, 2), violations=violations, repo=REPO)
+        open(os.path.join(d, prop + ".json"), "w").write(json.dumps(ev, indent=1, default=str) + "\n")
+        return
     os.makedirs(os.path.join(VERIF, "evidence"), exist_ok=True)
     ev = dict(property_id=prop, tier=tier, seed=seed, level="proof", coverage=coverage,
               assumptions=assumptions, wall_s=round(wall, 2), violations=violations)
